@@ -95,12 +95,15 @@ func srvAsmRun(mode int, chunks [][]byte, reuse bool) V {
 	buf := make([]byte, size)
 	var cum []byte
 	var steps []V
+	var raws, copies [][]byte
 	for _, ch := range chunks {
 		arg := ch
 		if reuse {
 			arg = buf[:copy(buf, ch)]
 		}
-		st := srvDirectStep(a, arg, &cum)
+		var raw []byte
+		st := srvDirectStep(a, arg, &cum, &raw)
+		raws, copies = append(raws, raw), append(copies, append([]byte(nil), raw...))
 		if reuse {
 			for i := range buf {
 				buf[i] = 0xEE
@@ -110,6 +113,14 @@ func srvAsmRun(mode int, chunks [][]byte, reuse bool) V {
 		l := st.(vList)
 		if l[2].(vInt) != 0 {
 			break // closed or panicked: the connection goroutine would stop reading
+		}
+	}
+	// look at the returned slices again: a response must not change once it has been returned
+	// (a caller may queue it); flag 2 in place of the nil flag
+	for i := range raws {
+		if !bytes.Equal(raws[i], copies[i]) {
+			l := steps[i].(vList)
+			steps[i] = L(l[0], I(2), l[2])
 		}
 	}
 	return L(steps...)
@@ -286,6 +297,18 @@ func streamSrvAsm(seed uint64, thorough bool) {
 	for i := 0; i < 60*vol; i++ {
 		srvLongCuts(rq, 0, srvSentinelStream(rq), 20, 10)
 	}
+	// --- one read completes requests whose replies total more than 1024 / 2048 / 4096 bytes ---
+	rb := newRng(seed ^ 0xb16)
+	srvBigReplyStreams(rb, func(s []byte) {
+		srvAsmCase(0, [][]byte{s})
+		for _, sz := range []int{300, 299, 120, 36, 13} {
+			srvAsmCase(0, srvFixedChunks(s, sz))
+		}
+		for k := 0; k < 6; k++ {
+			srvAsmCase(0, srvCut(s, srvRandomCuts(rb, len(s))))
+			srvAsmCase(0, srvCut(s, []int{1 + rb.intn(len(s)-1)}))
+		}
+	})
 	// --- frames whose MBAP length field exceeds the largest legal ADU, a normal request behind them ---
 	ro := newRng(seed ^ 0x0ae5)
 	for v := 0; v < vol; v++ {
@@ -653,6 +676,14 @@ func streamSrvConn(seed uint64, thorough bool) {
 		srvEmitConn(g, 0, 2, [][]byte{s})
 		srvEmitScript(g, 0, srvEvents(rq, srvCut(s, srvRandomCuts(rq, len(s))), 2, true))
 	}
+	// --- one read completes requests whose replies total more than 1024 / 2048 / 4096 bytes ---
+	srvBigReplyStreams(rq, func(s []byte) {
+		srvEmitConn(g, 0, 1, [][]byte{s}) // 300-byte reads
+		srvEmitConn(g, 0, 2, [][]byte{s})
+		srvEmitConn(g, 0, 1, srvFixedChunks(s, 120))
+		srvEmitScript(g, 0, srvEvents(rq, srvFixedChunks(s, 300), 2, true))
+		srvEmitScript(g, 0, srvEvents(rq, srvCut(s, srvRandomCuts(rq, len(s))), 2, false))
+	})
 	// --- a Write that times out after the peer took k bytes of it: k = 0, 1, 4, all but one ---
 	for i := 0; i < 40*vol; i++ {
 		var s []byte
